@@ -18,6 +18,7 @@ import json
 import os
 import re
 import shutil
+import time
 
 import vlib
 
@@ -256,6 +257,106 @@ def compare(gen, load, model_text, lqmode):
 
 # ------------------------------------------------------------------------------------------------
 
+def eligible_for_cli(gen, load_none):
+    """tool-built bondmachines the default-configured CLI can load (no nil entry / refusal without -linear-data-range)"""
+    _, gcases, order = gen
+    _, lcases, _ = load_none
+    res = []
+    for cid in order:
+        g, l = gcases[cid], lcases.get(cid)
+        if g["head"].split()[2] != "bm" or l is None:
+            continue
+        ogen = kvs(first_of(g["lines"], "O.gen"))
+        oload = kvs(first_of(l["lines"], "O.load"))
+        if ogen.get("raw") == "1" or "resave" not in oload or oload.get("nilops") != "0" or oload.get("nilsos") != "0":
+            continue
+        res.append(cid)
+    return res
+
+
+def cli_ops_round(hbin, d, gen, load_none, ncases):
+    """Every cmd/bondmachine operation that loads the file and writes it back (-list-*, -specs, -enum-*, -emit-dot,
+    -show-program-alias, -create-verilog, -multi-abstract-assembly-file, -add-inputs/outputs/processor/domains/bond/
+    shared-objects, -del-inputs/outputs/bonds, -connect-processor-shared-object, -sim on assembled programs), each on a
+    fresh copy of the saved file and WITHOUT -register-size: the re-saved file must equal the expected one computed by
+    `h-c11 cliplan` (read-only: the saved bytes; mutating: load as the tool does + the one library call + save).
+    Machines are picked so that register sizes 16, 32, 64 and 8 are all driven through every operation."""
+    cli = vlib.go_build_repo("bondmachine")
+    _, gcases, _ = gen
+    st = {"ops_cases": 0, "ops_runs": 0, "ops_same": 0, "ops_tool_failed": 0, "ops_by_name": {}, "ops_rsizes": {},
+          "ops_mutating_same": 0}
+    fails = []
+    groups = {}
+    for cid in eligible_for_cli(gen, load_none):
+        lb = kvs(first_of(gcases[cid]["lines"], "L.B"))
+        groups.setdefault(lb.get("rsize", "?"), []).append(cid)
+    for k in groups:   # fixed topologies / front-end machines first, then the random ones
+        groups[k].sort(key=lambda c: (0 if re.search(r" (topo|basm|allso)", gcases[c]["head"]) else 1, int(c)))
+    picked = []
+    keys = [k for k in ("16", "32", "64", "8") if k in groups] + [k for k in groups if k not in ("16", "32", "64", "8")]
+    while len(picked) < ncases and any(groups[k] for k in keys):
+        for k in keys:
+            if groups[k] and len(picked) < ncases:
+                picked.append(groups[k].pop(0))
+    for cid in picked:
+        g = gcases[cid]
+        tag = g["head"].split(None, 3)[3] if len(g["head"].split(None, 3)) > 3 else ""
+        lb = kvs(first_of(g["lines"], "L.B"))
+        src = os.path.join(d, cid + ".json")
+        wd = os.path.join(d, cid, "ops")
+        shutil.rmtree(wd, ignore_errors=True)
+        os.makedirs(wd)
+        rc, plan, perr = vlib.run([hbin, "cliplan", src, wd], timeout=120, env=vlib.goenv())
+        if rc != 0:
+            fails.append({"kind": "impl-panic", "case": cid, "tag": tag, "lq": "cli-ops", "gen": g["lines"], "load": [],
+                          "model": [], "detail": "h-c11 cliplan failed: " + perr[-300:]})
+            continue
+        ops = []
+        for ln in plan.splitlines():
+            f = ln.split()
+            if f and f[0] == "OP":
+                ops.append((f[1], f[2], f[3], f[4:]))
+        if tag.startswith("basm:"):     # a real program: the simulator is a load-and-save operation too
+            shutil.copyfile(src, os.path.join(wd, "sim.expected.json"))
+            ops.append(("sim", "ro", "sim", ["-sim", "-sim-interactions", "5"]))
+        st["ops_cases"] += 1
+        st["ops_rsizes"][lb.get("rsize", "?")] = st["ops_rsizes"].get(lb.get("rsize", "?"), 0) + 1
+        before = open(src, "rb").read()
+        for k, kind, name, args in ops:
+            od = os.path.join(wd, k)
+            os.makedirs(od, exist_ok=True)
+            dst = os.path.join(od, "bm.json")
+            shutil.copyfile(src, dst)
+            expected = open(os.path.join(wd, k + ".expected.json"), "rb").read()
+            rc, so, se = vlib.run([cli, "-bondmachine-file", "bm.json"] + args, timeout=60, cwd=od, env=vlib.goenv())
+            after = open(dst, "rb").read()
+            st["ops_runs"] += 1
+            st["ops_by_name"][name] = st["ops_by_name"].get(name, 0) + 1
+            if rc != 0 and after == before:
+                st["ops_tool_failed"] += 1     # the tool refused / crashed before saving (random machine): nothing lost
+                fb = st.setdefault("ops_tool_failed_by_name", {})
+                fb[name] = fb.get(name, 0) + 1
+                continue
+            if rc == 0 and after == expected:
+                st["ops_same"] += 1
+                if kind == "mut":
+                    st["ops_mutating_same"] += 1
+                continue
+            try:
+                ja, je = json.loads(after), json.loads(expected)
+                diff = [key for key in sorted(set(ja) | set(je)) if ja.get(key) != je.get(key)] if isinstance(ja, dict) and isinstance(je, dict) else ["<not an object>"]
+                what = "; ".join("%s: expected %s, tool wrote %s" % (key, json.dumps(je.get(key))[:120], json.dumps(ja.get(key))[:120]) for key in diff[:4])
+            except ValueError:
+                what = "the rewritten file is not valid JSON"
+            fails.append({"kind": "property-fails-on-impl", "case": cid, "tag": tag, "lq": "cli-ops", "gen": g["lines"],
+                          "load": [], "model": [],
+                          "detail": "bondmachine -bondmachine-file bm.json %s (rc=%s, machine Rsize=%s, no -register-size given) "
+                                    "left a file that differs from the expected one: %s" % (" ".join(args), rc, lb.get("rsize"), what),
+                          "cli_args": args, "saved_file": before.decode("utf-8", "replace")[:4000]})
+            break   # one report per machine is enough
+    return st, fails
+
+
 def run_cmd(cmd, timeout=1500, input_bytes=None):
     rc, so, se = vlib.run(cmd, timeout=timeout, env=vlib.goenv(), input_bytes=input_bytes)
     if rc != 0:
@@ -418,6 +519,7 @@ def samples_of(gen, k=3):
 
 def run(rep):
     thorough = rep.tier == "thorough"
+    t0a = time.monotonic()
     hbin = vlib.go_build("c11")
     ok_gen, gen_err = regenerate(hbin)
     pr = vlib.prove(PROP, MODULES, exes=[EXE], leanchecker=thorough)
@@ -445,13 +547,20 @@ def run(rep):
     fails_all = []
     results = None
     if os.path.exists(_oracle()):
-        n, ve = (1500, 1) if thorough else (160, 1)
+        n, ve = (1500, 1) if thorough else (130, 1)
+        t0b = time.monotonic()
         d, gen, results = one_round(hbin, n, ve)
-        cst, cfails = cli_round(d, gen, one_round.loads["none"], 400 if thorough else 70)
+        t1 = time.monotonic()
+        cst, cfails = cli_round(d, gen, one_round.loads["none"], 400 if thorough else 25)
+        t2 = time.monotonic()
+        ost, ofails = cli_ops_round(hbin, d, gen, one_round.loads["none"], 60 if thorough else 5)
+        cst.update(ost)
+        rep.coverage["phase_s"] = {"build+prove": round(t0b - t0a, 1), "gen+3 loads+oracle": round(t1 - t0b, 1),
+                                   "cli -list-processors": round(t2 - t1, 1), "cli operations": round(time.monotonic() - t2, 1)}
         summarize(rep, results, {"samples": samples_of(gen), "cli": cst})
         for lq in results:
             fails_all += results[lq][1]
-        fails_all += cfails
+        fails_all += cfails + ofails
     else:
         rep.coverage.update({"evaluations": 0, "distinct_nontrivial": 0, "rule": "correspondence did not run (oracle missing)",
                              "samples": [{"note": "correspondence did not run"}], "traces_validated_against_impl": 0})
@@ -461,7 +570,7 @@ def run(rep):
     nil = [f for f in fails_all if f["kind"] == "nil-opcode"]
     other = [f for f in fails_all if f not in real and f not in nil]
     seed = rep.seed
-    n_cases = (1500 if thorough else 160)
+    n_cases = (1500 if thorough else 130)
 
     def replay_obj(f, extra=None):
         o = {"property": PROP, "kind": f["kind"], "case": f["case"], "tag": f["tag"], "loader_config": f["lq"],
@@ -469,6 +578,9 @@ def run(rep):
              "live": [x for x in f["gen"] if x.startswith("L.")], "json": [x for x in f["gen"] if x.startswith("J.")],
              "reloaded": [x for x in f["load"] if x.startswith("X.") or x.startswith("O.")],
              "model": f["model"], "replay": "python3 tools/check.py C11 --replay <this file>"}
+        for k in ("cli_args", "saved_file"):
+            if k in f:
+                o[k] = f[k]
         if extra:
             o.update(extra)
         return o
@@ -518,6 +630,11 @@ def replay(rep, path):
     seed, n, cid = obj.get("seed", 1), obj.get("n", 220), str(obj.get("case", "0"))
     d, gen, results = one_round(hbin, n, 1, seed=seed, workdir="replay")
     summarize(rep, results, {"samples": [obj.get("live", [])[:2]]})
+    if str(obj.get("loader_config", "")).startswith("cli"):
+        _, cf = cli_round(d, gen, one_round.loads["none"], 400)
+        _, of = cli_ops_round(hbin, d, gen, one_round.loads["none"], 60 if n > 200 else 5)
+        results = dict(results)
+        results["cli"] = ({}, cf + of)
     rep.coverage["rule"] = "replay of case %s of seed %s from %s" % (cid, seed, path)
     rep.coverage["distinct_nontrivial"] = max(1, rep.coverage.get("distinct_nontrivial", 1))
     hit = False
